@@ -42,7 +42,9 @@ func vfC18(w *vfWorld) {
 	cfg.CookieHTTPOnly = !t.Prob("c18.nohttponly", 300)
 	cfg.CookieSameSite = vfPick(t, "c18.samesite", []string{"", "lax", "strict", "none"})
 	cfg.CookiePath = vfPick(t, "c18.path", []string{"/", "/", "/", "/app", "/oauth2", "/a/b/"})
-	domSets := [][]string{nil, {"app.sim"}, {".app.sim"}, {"sim", "app.sim"}, {"x.app.sim", "app.sim", "sim"}, {"other.test"}}
+	domSets := [][]string{nil, {"app.sim"}, {".app.sim"}, {"sim", "app.sim"}, {"x.app.sim", "app.sim", "sim"}, {"other.test"},
+		// a domain given twice (flag and environment, two config layers) is still one domain
+		{"app.sim", "app.sim"}, {"sim", "app.sim", "sim"}, {"other.test", "x.app.sim", "x.app.sim"}}
 	cfg.CookieDomains = domSets[t.Choice("c18.domains", len(domSets))]
 	cfg.CookieName = vfPick(t, "c18.name", []string{"_oauth2_proxy", "s", strings.Repeat("n", 100), strings.Repeat("n", 256), "__Secure-x"})
 	if strings.HasPrefix(cfg.CookieName, "__Secure-") {
@@ -59,7 +61,9 @@ func vfC18(w *vfWorld) {
 	reps := w.Standard(cfg, 1)
 	rep := reps[0]
 	pp := cfg.ProxyPrefix
-	hostPool := []string{"app.sim", "x.app.sim", "deep.x.app.sim", "other.sim", "unrelated.test", "app.sim:8080", "badapp.sim", "sim"}
+	hostPool := []string{"app.sim", "x.app.sim", "deep.x.app.sim", "other.sim", "unrelated.test", "app.sim:8080", "badapp.sim", "sim",
+		// reached by address: the configured domain rules apply to such a host like to any other that matches none
+		"192.0.2.10", "192.0.2.10:4180", "[2001:db8::1]", "[2001:db8::1]:4180"}
 	nh := 1 + t.Choice("c18.nhosts", 3)
 	for i := 0; i < nh; i++ {
 		cs.Hosts = append(cs.Hosts, hostPool[t.Choice("c18.host", len(hostPool))])
